@@ -432,12 +432,19 @@ func RunMention(c *hx.Ctx, idx int, verbose bool) { runDoc(c, "mention", idx, ve
 // that differ in how the front of the file is spelled (opening.go).
 func RunOpening(c *hx.Ctx, idx int, verbose bool) { runDoc(c, "opening", idx, verbose) }
 
+// RunEmbed does the same for document #idx of the stream of packages that embed
+// a file of another format and declare its type (embed.go).
+func RunEmbed(c *hx.Ctx, idx int, verbose bool) { runDoc(c, "embed", idx, verbose) }
+
 func runDoc(c *hx.Ctx, kind string, idx int, verbose bool) {
 	r := hx.NewRng(c.Seed).Fork(uint64(idx)) // independent of how much of c.Rng earlier stages used: replays from (seed, index)
 	var d *Doc
 	if kind == "mention" {
 		r = hx.NewRng(c.Seed).Fork(0x4D454E54).Fork(uint64(idx))
 		d = genMentionDoc(r, idx, fmt.Sprintf("tok%dm%04x", idx, r.Intn(1<<16)))
+	} else if kind == "embed" {
+		r = hx.NewRng(c.Seed).Fork(0x454D4244).Fork(uint64(idx))
+		d = genEmbedDoc(r, idx, fmt.Sprintf("tok%de%04x", idx, r.Intn(1<<16)))
 	} else if kind == "opening" {
 		r = hx.NewRng(c.Seed).Fork(0x4F50454E).Fork(uint64(idx))
 		d = htmlOpeningDoc(r, idx, fmt.Sprintf("tok%do%04x", idx, r.Intn(1<<16)))
@@ -604,7 +611,7 @@ func malformed(c *hx.Ctx) {
 }
 
 func Run(c *hx.Ctx) {
-	c.Rep.Rule = "names: every stem × extension × case variant + random names; magic: crafted prefixes, the 500-byte XML window, random prefixes; zipfmt: all single members, ordered pairs and random member lists over markers/prefixes/decoys/mimetype contents; documents: the harness's own writers for PDF, DOCX, ODT, XLSX, PPTX, HTML, EPUB 2/3 (+ HTML the sniffer cannot classify), each in canonical/reversed/markers-last/shuffled member orders and with decoy members of other formats in front/behind/between, each stored under all eight extensions, case variants, no and unsupported extensions and opened with tabula.Open(name).Text(); mentions: the same for documents of every format whose content quotes the signatures of the OTHER formats (%PDF-x.y, PK\\x03\\x04, doctype / <html>, mimetype strings, main part names) in title, meta, comments, attributes, body text, PDF comments / streams / page text / Info, ZIP member names and stored member data - marks × offsets (front, inside / across / beyond 512, 1024, 4096 bytes) swept for HTML and PDF, sampled for the ZIP formats and unclassifiable HTML; openings: HTML documents sweeping how the front of the file may be spelled under the HTML/XML grammar - root start tag alone / after a DOCTYPE / omitted after one / after an XML declaration (XHTML) x the whitespace after the first keyword (one blank, LF, CRLF, CR, TAB, FF, runs and indentation) x letter case of tag name and DOCTYPE keywords x 0-3 attributes in quoted/unquoted/empty form spread over lines x legacy DOCTYPE strings x leading whitespace; EPUB DRM matrix: rights file, unparsable metadata, all subsets of manifest items × algorithm, random subset×algorithm mixes, entry permutations and URI case/path forms (percent-encoded URI reference, per-segment component escaping, and the archive member name copied verbatim), over EPUBs whose chapter and font file names are conventional, or built from OCF-legal characters that are delimiters/escapes in a URI (stray '%', '#', brackets, sub-delimiters, blanks, '^', '`', braces; in file and directory names) - none / one in four / all of them per block of ten EPUBs; malformed: truncated/empty/markerless archives, random bytes; public API: every Format value through String/Extension/Detect; archives through validateMimetype, sniffer + checkForDRM and epubdoc.OpenReader (EPUBs in every DRM state x intact/shuffled/no container/no OPF/broken container/no or wrong mimetype/no markers, other formats' documents, junk, random member lists over the names the three mechanisms key on and near misses of them with good/broken encryption.xml, members that cannot be opened); the three URI spellings of EPUB item paths and of random byte strings; worlds (valid documents of the seven formats, shuffled with decoys, unclassifiable HTML, DRM / damaged EPUBs, junk bytes, missing file, directory) under every extension + case variants + none + nested/misleading names x every kind of operation of the public API on a fresh Open; random call histories of 4-14 calls (Open under 3 names holding the same bytes, FromReader, FromHTMLString / failing FromHTMLReader, configuration methods incl. an invalid PageRange, operations of every kind, Close, rewrites among 1-3 versions of the bytes). non-trivial = a document opened with its token in the text / an op with a definite format"
+	c.Rep.Rule = "names: every stem × extension × case variant + random names; magic: crafted prefixes, the 500-byte XML window, random prefixes; zipfmt: all single members, ordered pairs and random member lists over markers/prefixes/decoys/mimetype contents; documents: the harness's own writers for PDF, DOCX, ODT, XLSX, PPTX, HTML, EPUB 2/3 (+ HTML the sniffer cannot classify), each in canonical/reversed/markers-last/shuffled member orders and with decoy members of other formats in front/behind/between, each stored under all eight extensions, case variants, no and unsupported extensions and opened with tabula.Open(name).Text(); mentions: the same for documents of every format whose content quotes the signatures of the OTHER formats (%PDF-x.y, PK\\x03\\x04, doctype / <html>, mimetype strings, main part names) in title, meta, comments, attributes, body text, PDF comments / streams / page text / Info, ZIP member names and stored member data - marks × offsets (front, inside / across / beyond 512, 1024, 4096 bytes) swept for HTML and PDF, sampled for the ZIP formats and unclassifiable HTML; openings: HTML documents sweeping how the front of the file may be spelled under the HTML/XML grammar - root start tag alone / after a DOCTYPE / omitted after one / after an XML declaration (XHTML) x the whitespace after the first keyword (one blank, LF, CRLF, CR, TAB, FF, runs and indentation) x letter case of tag name and DOCTYPE keywords x 0-3 attributes in quoted/unquoted/empty form spread over lines x legacy DOCTYPE strings x leading whitespace; embeddings: DOCX / XLSX / PPTX / ODT / EPUB packages that embed a file of another kind (docx docm dotx xlsx xlsm xltx pptx pptm sldx ppsx odt ods odp pdf html epub, OLE object; real documents from the harness's writers) as a proper part and declare its media type the host's own way - OOXML: part under <main dir>/embeddings, relationship from sheet / document / slide, Default-by-extension or Override content type at the front or back of [Content_Types].xml; ODT: sub-document directory or plain member listed in META-INF/manifest.xml; EPUB: non-spine manifest item - host x payload kind swept, a second payload on one in three, each through the same layouts x names; EPUB DRM matrix: rights file, unparsable metadata, all subsets of manifest items × algorithm, random subset×algorithm mixes, entry permutations and URI case/path forms (percent-encoded URI reference, per-segment component escaping, and the archive member name copied verbatim), over EPUBs whose chapter and font file names are conventional, or built from OCF-legal characters that are delimiters/escapes in a URI (stray '%', '#', brackets, sub-delimiters, blanks, '^', '`', braces; in file and directory names) - none / one in four / all of them per block of ten EPUBs; malformed: truncated/empty/markerless archives, random bytes; public API: every Format value through String/Extension/Detect; archives through validateMimetype, sniffer + checkForDRM and epubdoc.OpenReader (EPUBs in every DRM state x intact/shuffled/no container/no OPF/broken container/no or wrong mimetype/no markers, other formats' documents, junk, random member lists over the names the three mechanisms key on and near misses of them with good/broken encryption.xml, members that cannot be opened); the three URI spellings of EPUB item paths and of random byte strings; worlds (valid documents of the seven formats, shuffled with decoys, unclassifiable HTML, DRM / damaged EPUBs, junk bytes, missing file, directory) under every extension + case variants + none + nested/misleading names x every kind of operation of the public API on a fresh Open; random call histories of 4-14 calls (Open under 3 names holding the same bytes, FromReader, FromHTMLString / failing FromHTMLReader, configuration methods incl. an invalid PageRange, operations of every kind, Close, rewrites among 1-3 versions of the bytes). non-trivial = a document opened with its token in the text / an op with a definite format"
 	extOps(c)
 	magicOps(c)
 	zipfmtOps(c)
@@ -618,6 +625,9 @@ func Run(c *hx.Ctx) {
 	}
 	for i, k := 0, c.N(2, 12)*openingRound(); i < k; i++ {
 		RunOpening(c, i, false)
+	}
+	for i, k := 0, c.N(1, 4)*embedRound(); i < k; i++ {
+		RunEmbed(c, i, false)
 	}
 	m := c.N(60, 600)
 	for i := 0; i < m; i++ {
@@ -641,6 +651,8 @@ func Replay(c *hx.Ctx, kase map[string]interface{}) {
 		RunMention(c, idx, true)
 	case "opening":
 		RunOpening(c, idx, true)
+	case "embed":
+		RunEmbed(c, idx, true)
 	case "drm":
 		RunDRM(c, idx, true)
 	case "api-open":
